@@ -590,6 +590,7 @@ class SimNet(object):
 class SimTransport(object):
     disconnecting = False
     disconnected = False
+    aborted = False
 
     def __init__(self, conn, host, peer):
         self.conn = conn
@@ -607,8 +608,11 @@ class SimTransport(object):
             conn.writes_after_lost += 1
             conn.sim.log('write-after-lost', conn.id, len(data))
             return
-        if conn.c_fin:
+        if self.aborted:
             return
+        if conn.c_fin:
+            # as in Twisted: loseConnection() closes after the pending data, and data written after it still goes out
+            conn.sim.log('write-after-loseConnection', conn.id, len(data))
         if self.on_write is not None:
             self.on_write(bytes(data))
         self.written += data
@@ -629,6 +633,7 @@ class SimTransport(object):
         if self.conn.client_gone:
             return
         self.disconnecting = True
+        self.aborted = True
         self.conn.c2s.clear()
         self.conn.c_fin = True
 
